@@ -56,7 +56,7 @@ ASSUMPTIONS = [
 CONVERGE = 24
 TX_BOUND = 24
 BOUNDS = "BMC from reset; control inputs free every cycle (layers: constant / free), DIR/NXT free within contract + " \
-         "fairness; quick K=28 (26 fully free, 32 convergence-only), thorough K=40 (38 fully free, 44 convergence-only)"
+         "fairness; quick K=28 (26 fully free, 32-34 convergence-only), thorough K=40 (38 fully free, 44-46 convergence-only)"
 OUTSIDE = "unbounded liveness (only the stated cycle bounds); extra registers (add_extra_register); PHYs slower than " \
           "the fairness bound; register reads; K beyond the bounds"
 
@@ -254,6 +254,9 @@ def queries(tier):
     qs = [
         Query("bmc_startup", f_const_notx, K, covers=nochange_cov, timeout=900,
               desc="layer: control inputs constant (symbolic) from reset, no transmission: the start-up writes"),
+        Query("bmc_startup_converge", f_const_notx, K + 6, asserts=["converge"], covers=[], timeout=900,
+              desc="layer: as bmc_startup, deeper, convergence assertion only (a start-up write aborted by DIR in its "
+                   "STP cycle plus the 24-cycle convergence bound needs 32 steps)"),
         Query("bmc_startup_tx", f_const, K, covers=["tx_after_write"], timeout=900,
               desc="layer: control inputs constant (symbolic), transmit side free: start-up writes against transmissions"),
         Query("bmc_changes", f_free_notx, K, covers=["change_in_flight"], timeout=900,
